@@ -16,7 +16,7 @@ CM = None
 
 WRAPS_SERIAL = ["pthread_create", "pthread_join", "pthread_mutex_lock", "pthread_mutex_unlock",
                 "pthread_mutex_init", "pthread_mutex_destroy", "pthread_cond_wait",
-                "pthread_cond_timedwait", "pthread_cond_signal", "pthread_cond_broadcast",
+                "pthread_cond_timedwait", "pthread_cond_signal", "pthread_cond_broadcast", "pthread_cond_init",
                 "pthread_barrier_init", "pthread_barrier_wait", "syscall", "clock_gettime",
                 "nanosleep", "malloc", "calloc", "realloc", "posix_memalign", "free", "mmap",
                 "munmap"]
